@@ -490,18 +490,18 @@ fc_statements = [
     dict(
         name="f_bool_in",
         c_local_var=True,
-        pre_call=["{c_var} = {f_var}  ! coerce to C_BOOL"],
+        pre_call=["{c_var} =\t {f_var}  ! coerce to C_BOOL"],
     ),
     dict(
         name="f_bool_out",
         c_local_var=True,
-        post_call=["{f_var} = {c_var}  ! coerce to logical"],
+        post_call=["{f_var} =\t {c_var}  ! coerce to logical"],
     ),
     dict(
         name="f_bool_inout",
         c_local_var=True,
-        pre_call=["{c_var} = {f_var}  ! coerce to C_BOOL"],
-        post_call=["{f_var} = {c_var}  ! coerce to logical"],
+        pre_call=["{c_var} =\t {f_var}  ! coerce to C_BOOL"],
+        post_call=["{f_var} =\t {c_var}  ! coerce to logical"],
     ),
     dict(
         name="f_bool_result",
@@ -514,7 +514,7 @@ fc_statements = [
         name="f_native_*_in_raw",
         # same as "f_void_*",
         arg_decl=[
-            "{f_type}, intent({f_intent}), target :: {f_var}{f_assumed_shape}",
+            "{f_type}, intent({f_intent}), target ::\t {f_var}{f_assumed_shape}",
         ],
         f_module=dict(iso_c_binding=["C_LOC"]),
         arg_c_call=["C_LOC({f_var})"],
@@ -525,7 +525,7 @@ fc_statements = [
         # Allocate array then pass to C wrapper.
         name="f_native_*_out_allocatable",
         arg_decl=[
-            "{f_type}, intent({f_intent}), allocatable :: {f_var}{f_assumed_shape}",
+            "{f_type}, intent({f_intent}), allocatable ::\t {f_var}{f_assumed_shape}",
         ],
         pre_call=[
             "allocate({f_var}{f_array_allocate})",
@@ -585,7 +585,7 @@ fc_statements = [
         ],
         arg_c_call=["{F_pointer}"],
         post_call=[
-            "call c_f_pointer({F_pointer}, {f_var})",
+            "call c_f_pointer({F_pointer},\t {f_var})",
         ],
     ),
     dict(
@@ -594,11 +594,11 @@ fc_statements = [
         # with a Fortran pointer.
         name="f_native_**_out",
         arg_decl=[
-            "{f_type}, intent({f_intent}), pointer :: {f_var}{f_assumed_shape}",
+            "{f_type}, intent({f_intent}), pointer ::\t {f_var}{f_assumed_shape}",
         ],
         f_module=dict(iso_c_binding=["c_f_pointer"]),
         post_call=[
-            "call c_f_pointer({c_var_context}%base_addr, {f_var}{f_array_shape})",
+            "call c_f_pointer({c_var_context}%base_addr,\t {f_var}{f_array_shape})",
         ],
     ),
     dict(
@@ -617,7 +617,7 @@ fc_statements = [
         # but c_native_**_out_buf uses buf_args=context.
         # XXX - maybe use c_native_**_out_buf_raw
         post_call=[
-            "{f_var} = {c_var_context}%base_addr",
+            "{f_var} =\t {c_var_context}%base_addr",
         ],
     ),
     dict(
@@ -647,20 +647,20 @@ fc_statements = [
         name="f_native_*_in/out/inout_cdesc",
         # TARGET required for argument to C_LOC.
         arg_decl=[
-            "{f_type}, intent({f_intent}), target :: {f_var}{f_assumed_shape}",
+            "{f_type}, intent({f_intent}), target ::\t {f_var}{f_assumed_shape}",
         ],
         f_helper="ShroudTypeDefines",
         f_module=dict(iso_c_binding=["C_LOC"]),
 #        initialize=[
         pre_call=[
-            "{c_var_context}%base_addr = C_LOC({f_var})",
+            "{c_var_context}%base_addr =\t C_LOC({f_var})",
             "{c_var_context}%type = {sh_type}",
             "! {c_var_context}%elem_len = C_SIZEOF()",
 #            "{c_var_context}%size = size({f_var})",
             "{c_var_context}%size = {size}",
             "{c_var_context}%rank = {rank}",
             # This also works with scalars since (1:0) is a zero length array.
-            "{c_var_context}%shape(1:{rank}) = shape({f_var})",
+            "{c_var_context}%shape(1:{rank}) =\t shape({f_var})",
         ],
     ),
 
@@ -1476,7 +1476,7 @@ fc_statements = [
         f_helper="copy_array_{cxx_T}",
         f_module=dict(iso_c_binding=["C_SIZE_T"]),
         post_call=[
-            "allocate({f_var}({c_var_context}%size))",
+            "allocate({f_var}(\t{c_var_context}%size))",
             "call {hnamefunc0}(\t{c_var_context},\t {f_var},\t size({f_var},kind=C_SIZE_T))",
         ],
     ),
@@ -1486,8 +1486,8 @@ fc_statements = [
         f_helper="copy_array_{cxx_T}",
         f_module=dict(iso_c_binding=["C_SIZE_T"]),
         post_call=[
-            "if (allocated({f_var})) deallocate({f_var})",
-            "allocate({f_var}({c_var_context}%size))",
+            "if (allocated({f_var}))\t deallocate({f_var})",
+            "allocate({f_var}(\t{c_var_context}%size))",
             "call {hnamefunc0}(\t{c_var_context},\t {f_var},\t size({f_var},kind=C_SIZE_T))",
         ],
     ),
@@ -1499,7 +1499,7 @@ fc_statements = [
         f_helper="copy_array_{cxx_T}",
         f_module=dict(iso_c_binding=["C_SIZE_T"]),
         post_call=[
-            "allocate({f_var}({c_var_context}%size))",
+            "allocate({f_var}(\t{c_var_context}%size))",
             "call {hnamefunc0}(\t{c_var_context},\t {f_var},\t size({f_var},kind=C_SIZE_T))",
         ],
     ),
